@@ -252,7 +252,7 @@ pub fn h_lines() {
     let mut sums: Vec<Vec<(usize, Vec<u8>)>> = vec![Vec::new(), Vec::new(), Vec::new()];
     let mut sizes: Vec<Option<u64>> = vec![None, None, None];
     let mut text: Vec<u8> = Vec::new();
-    let nl = 1 + sym::choose("nlines", sym::bound(3, 4));
+    let nl = 1 + sym::choose("nlines", sym::bound(2, 3));
     // blank style between fields, once per text: single blank / doubled blanks with leading
     // blanks / tab+blank
     let style = sym::choose("ws", 3);
@@ -315,12 +315,12 @@ pub fn h_lines() {
                 7 => text.extend_from_slice(b"SHA3 (d) = 00"),
                 8 => {
                     text.extend_from_slice(b"Size (d9) = ");
-                    text.extend_from_slice(&sym::any_bytes("badsize", "set:-x9", 0, 2));
+                    text.extend_from_slice(&sym::any_bytes("badsize", "set:-x9", 0, 1));
                     text.extend_from_slice(b"x bytes");
                 }
                 _ => {
                     text.extend_from_slice(b"g");
-                    text.extend_from_slice(&sym::any_bytes("garbage", "bytes-nonl", 0, 2));
+                    text.extend_from_slice(&sym::any_bytes("garbage", "bytes-nonl", 0, sym::bound(1, 2)));
                 }
             }
         }
